@@ -50,7 +50,17 @@ def plan(tier, seed):
             dict(kind='autoref', nmax=5, init_vars=2),
             # many variables, few used levels (level maps with holes)
             dict(kind='bdd', nmax=10, init_vars=9, semantic=False),
-            dict(kind='bdd', nmax=12, init_vars=10, semantic=False)]
+            dict(kind='bdd', nmax=12, init_vars=10, semantic=False),
+            # managers constructed from a levels dict listed in another
+            # order, or by copy_vars from a reordered manager
+            dict(kind='bdd', nmax=5, order=['c', 'a', 'd', 'b'],
+                 ctor='levels', ctor_seed=1),
+            dict(kind='autoref', nmax=5, order=['b', 'd', 'a', 'c'],
+                 ctor='levels', ctor_seed=2),
+            dict(kind='bdd', nmax=5, order=['d', 'b', 'a', 'c'],
+                 ctor='copy_vars'),
+            dict(kind='autoref', nmax=5, order=['c', 'd', 'b', 'a'],
+                 ctor='copy_vars')]
     specs = []
     for s in range(16 if tier == 'thorough' else 10):
         specs.append(dict(kind='random', seed=seed * 1000 + s, cfgs=cfgs,
